@@ -57,6 +57,18 @@ def r15_1(ctx: Ctx):
                 and isinstance(st.targets[0].slice, ast.Attribute) and st.targets[0].slice.attr == "number":
             map_var, map_store = st.targets[0].value.id, st
     if map_var is None:
+        # no number -> position table at all: how are the endpoints of a bond turned into positions?
+        apps = [c for c in calls_in(fn) if call_name(c) == "append" and c.args and isinstance(c.args[0], ast.Tuple)
+                and len(c.args[0].elts) == 2 and any("bond" in norm(e) or "[0]" in norm(e) or "[1]" in norm(e) for e in c.args[0].elts)]
+        for c in apps:
+            if all(isinstance(e, (ast.BinOp, ast.Subscript, ast.Name)) for e in c.args[0].elts) and \
+                    not any(isinstance(e, ast.Subscript) and isinstance(e.value, ast.Name) and not norm(e.value).startswith("bond")
+                            for e in c.args[0].elts):
+                ctx.ob("R15.1", f, c, False,
+                       "atom numbers in a topology are arbitrary (possibly non-contiguous): both endpoints of a bond must be "
+                       "translated through a table built from the [ atoms ] section -- `%s` computes positions arithmetically, "
+                       "which is wrong as soon as the numbering has a gap" % norm(c.args[0]), node=c)
+                return
         raise AnalysisError("R15.1: number->position map store (`m[line.number] = index`) not found in _itp_top_atoms")
     # atom loop: every path through its body does all of {append atom, store map, advance index} or none
     loop = None
